@@ -162,8 +162,9 @@ impl Fam for CharFam {
     }
     fn k_new<'a>(s: &CSetup, d: &'a String) -> CK<'a> {
         match s.kind {
-            CKind::Chars => CK::C(ks::chars(d.as_str())),
-            CKind::CharIndices => CK::CI(ks::char_indices(d.as_str())),
+            // (through into_iter!, which is the identity on konst iterators)
+            CKind::Chars => CK::C(konst::iter::into_iter!(ks::chars(d.as_str()))),
+            CKind::CharIndices => CK::CI(konst::iter::into_iter!(ks::char_indices(d.as_str()))),
         }
     }
     fn m_next<'a>(m: &mut CM<'a>, _d: &'a String) -> Option<CItem> {
